@@ -490,10 +490,17 @@ def _do(reg, c):
         e = reg.get(c["kind"], c["x"])
         if op == "set_item":
             if c["key"] == "props":
-                # a nested user value: two properties; on odd element ids the first one carries an original name
-                # (it is written as a rename construct and followed by a plain property)
+                # a nested user value: two properties; for every other sibling the first one carries an original
+                # name (it is written as a rename construct and followed by a plain property).  The choice depends
+                # on the element's position among its siblings, so that two builds of one script agree.
                 first = {"identifier": "p", "value": c["val"]}
-                if c["x"] % 2 == 1:
+                sibs = None
+                for attr, lst in (("parent", "children"), ("definition", "ports"), ("library", "definitions")):
+                    par = getattr(e, attr, None)
+                    if par is not None:
+                        sibs = list(getattr(par, lst))
+                        break
+                if sibs is not None and any(x is e for x in sibs) and [x is e for x in sibs].index(True) % 2 == 0:
                     first["original_identifier"] = "P.x"
                 e[KEYMAP["props"]] = [first, {"identifier": "q", "value": "w"}]
             else:
@@ -682,9 +689,10 @@ def _q_query(reg, c):
     hier = c["fn"].startswith("h")
     root = reg.get(c["root"][0], c["root"][1])
     base = {}
-    if c["fn"] != "netlists" and not hier:
+    # get_netlists and get_ports take neither a selection nor a recursive argument
+    if c["fn"] not in ("netlists", "ports") and not hier:
         base["selection"] = c["sel"]
-    if c["fn"] != "netlists":
+    if c["fn"] not in ("netlists", "ports"):
         base["recursive"] = bool(c["rec"])
     key = KEYMAP.get(c["key"], c["key"])
     if not hier:
@@ -940,6 +948,14 @@ def _x_compose2(reg, c):
             t2 = f.read()
         extra["hash1"] = hashlib.sha256(_mask_timestamp(t1).encode()).hexdigest()[:16]
         extra["hash2"] = hashlib.sha256(_mask_timestamp(t2).encode()).hexdigest()[:16]
+        # the method form, three times: default options, the given options, default options again - the first
+        # and the third text must be the same (an option given to one call is not remembered for the next)
+        texts = []
+        for k3 in ({}, kw, {}):
+            n.compose(p2, **k3)
+            with open(p2) as f:
+                texts.append(hashlib.sha256(_mask_timestamp(f.read()).encode()).hexdigest()[:16])
+        extra["hash_m1"], extra["hash_mk"], extra["hash_m3"] = texts
         complete = True
         try:
             if c["fmt"] == "edif":
@@ -1021,7 +1037,38 @@ def mutate_text(fmt, text, kind, idx):
     import re
     toks = re.findall(_TOKENS[fmt], text)
     n = len(toks)
-    if kind == "dangle":
+    if kind == "crosslib":
+        # a cellRef redirected to another DECLARED library that does not declare that cell (or its libraryRef
+        # deleted where the surrounding library does not declare it): every such text has a dangling reference
+        if fmt != "edif":
+            return None, n
+        cells, cur = {}, None
+        for i, t in enumerate(toks[:-2]):
+            if t == "(" and toks[i + 1].lower() in ("library", "external"):
+                cur = toks[i + 2] if toks[i + 2] != "(" else toks[i + 4]
+                cells.setdefault(cur.lower(), set())
+            elif t == "(" and toks[i + 1].lower() == "cell" and cur is not None:
+                cid = toks[i + 2] if toks[i + 2] != "(" else toks[i + 4]
+                cells[cur.lower()].add(cid.lower())
+        cases, cur = [], None
+        for i, t in enumerate(toks[:-6]):
+            if t == "(" and toks[i + 1].lower() in ("library", "external"):
+                cur = (toks[i + 2] if toks[i + 2] != "(" else toks[i + 4]).lower()
+            if t == "(" and toks[i + 1].lower() == "cellref" and toks[i + 3] == "(" and toks[i + 4].lower() == "libraryref":
+                cid, lib = toks[i + 2].lower(), toks[i + 5]
+                for other in sorted(cells):
+                    if other != lib.lower() and cid not in cells[other]:
+                        cases.append(("redirect", i + 5, other))
+                if cur is not None and cur != lib.lower() and cid not in cells.get(cur, set()):
+                    cases.append(("drop", i + 3, None))
+        if not cases or idx >= len(cases):
+            return None, n
+        what, pos, other = cases[idx]
+        if what == "redirect":
+            toks[pos] = other
+        else:
+            del toks[pos:pos + 4]          # ( libraryRef L )
+    elif kind == "dangle":
         refs = [i + 1 for i, t in enumerate(toks[:-1]) if t.lower() in _REFKW[fmt] and toks[i + 1] not in ("(", ")")]
         if not refs:
             return None, n
@@ -1060,6 +1107,8 @@ def _x_parse_text(reg, c):
     if not _PROBE_BASE:
         _PROBE_BASE.append(_probe())
     path = _tmpfile({"edif": ".edf", "verilog": ".v", "eblif": ".eblif"}[fmt])
+    pol = c.get("pol", "DEFAULT")          # the policy that is active when the reader is called
+    sdn.namespace_manager.default = pol
     extra = {"policy_before": _val(sdn.namespace_manager.default), "ntok": ntok, "same_text": text == base}
     new = None
     import signal
@@ -1081,9 +1130,10 @@ def _x_parse_text(reg, c):
         if os.path.exists(path):
             os.unlink(path)
     extra["policy_after"] = _val(sdn.namespace_manager.default)
+    if extra["policy_after"] == extra["policy_before"]:
+        sdn.namespace_manager.default = "DEFAULT"     # the probe's reference behaviour was taken under DEFAULT
     extra["probe_same"] = (_probe() == _PROBE_BASE[0])
-    if extra["policy_after"] != extra["policy_before"]:
-        sdn.namespace_manager.default = extra["policy_before"]      # do not let one failure distort the next case
+    sdn.namespace_manager.default = "DEFAULT"         # do not let one failure distort the next case
     reg.last_extra = extra
     return [("N", new)] if new is not None else []
 
